@@ -88,3 +88,31 @@ Definition plot_curves (times : list T) (readout_at : T -> list (str * V)) (disp
                               (combine (seq 0 (length display)) display))
   end.
 End Plot.
+
+(* ---------- which curves, in which order (plot, display == "all"):
+        if order == "dataset":        display = sort_list_according_to_dataset(self.decay(0).nuclides, self.decay_data.nuclide_dict)
+        elif order == "alphabetical": display = self.decay(0).nuclides
+        else: raise ValueError
+   utils.sort_list_according_to_dataset = sorted(input_list, key=lambda nuclide: key_dict[nuclide]): a STABLE sort on the
+   nuclide's position in the data set (KeyError for a name the data set does not list). *)
+Fixpoint index_of (n : str) (names : list str) : option nat :=
+  match names with
+  | [] => None
+  | x :: r => if s_eqb n x then Some O else option_map S (index_of n r)
+  end.
+Fixpoint ins_by (kn : nat * str) (l : list (nat * str)) : list (nat * str) :=
+  match l with
+  | [] => [kn]
+  | x :: r => if Nat.leb (fst kn) (fst x) then kn :: x :: r else x :: ins_by kn r
+  end.
+Definition sort_list_according_to_dataset (input : list str) (names : list str) : res (list str) :=
+  match opt_all (map (fun n => option_map (fun i => (i, n)) (index_of n names)) input) with
+  | None => Raise KeyError
+  | Some l => OK (map snd (fold_right ins_by [] l))
+  end.
+Definition s_dataset : str := [100; 97; 116; 97; 115; 101; 116]%N.
+Definition s_alphabetical : str := [97; 108; 112; 104; 97; 98; 101; 116; 105; 99; 97; 108]%N.
+Definition plot_display_all (order : str) (decayed : list str) (names : list str) : res (list str) :=
+  if s_eqb order s_dataset then sort_list_according_to_dataset decayed names
+  else if s_eqb order s_alphabetical then OK decayed
+  else Raise ValueError.
